@@ -715,4 +715,166 @@ theorem runCrcv_sound (single : Bool) (cap : Nat) (junk : UInt8) (body : Bytes) 
         exact ⟨num, szx, hg.2.1, b, by rw [c]; exact hg.2.2.1⟩
     · exact runCrcv_sound single cap junk body sz hsz rs _ (fun s hs hi => hspec.inv s hs hi) hrest o ho
 
+/-! ## per-block mode over a run: every block once, and all of them at completion -/
+
+theorem crcvStore_perblock (cap : Nat) (junk : UInt8) (lg : Crcv) (num m szx : Nat) (payload data : Bytes)
+    (offset size2 fmt : Nat) :
+    (∀ n s, (crcvStore false cap junk lg num m szx payload data offset size2 fmt).2 ≠ CrcvOut.next n s) ∧
+    (crcvStore false cap junk lg num m szx payload data offset size2 fmt).2 ≠ CrcvOut.wait := by
+  unfold crcvStore
+  dsimp only
+  by_cases hf : fmt ≠ lg.fmt
+  · rw [if_pos hf]; exact ⟨fun n s h => (by cases h), fun h => (by cases h)⟩
+  · rw [if_neg hf]
+    by_cases hr : checkIfReceived lg.recv num = true
+    · rw [if_pos hr]; exact ⟨fun n s h => (by cases h), fun h => (by cases h)⟩
+    · rw [if_neg hr]
+      cases hu : updateReceived cap lg.recv num with
+      | mk ok rec' =>
+        cases ok with
+        | false => exact ⟨fun n s h => (by cases h), fun h => (by cases h)⟩
+        | true =>
+          simp only [Bool.false_eq_true, if_false]
+          by_cases hc : m ≠ 0 ∨ ¬ checkAllBlocksIn rec' ((size2 + 2 ^ (szx + 4) - 1) / 2 ^ (szx + 4)) = true
+          · rw [if_pos hc]; exact ⟨fun n s h => (by cases h), fun h => (by cases h)⟩
+          · rw [if_neg hc]; exact ⟨fun n s h => (by cases h), fun h => (by cases h)⟩
+
+theorem crcvStep_perblock (cap : Nat) (junk : UInt8) (st : Option Crcv) (r : Resp) :
+    (∀ n s, (crcvStep false cap junk st r).2 ≠ CrcvOut.next n s) ∧ (crcvStep false cap junk st r).2 ≠ CrcvOut.wait := by
+  have hblock : ∀ lg num m szx, (∀ n s, (crcvBlock false cap junk lg num m szx r).2 ≠ CrcvOut.next n s) ∧
+      (crcvBlock false cap junk lg num m szx r).2 ≠ CrcvOut.wait := by
+    intro lg num m szx
+    unfold crcvBlock
+    dsimp only
+    generalize (if r.payload.length > 2 ^ (szx + 4) then r.payload.take (2 ^ (szx + 4)) else r.payload) = data
+    by_cases hund : m ≠ 0 ∧ data.length ≠ 2 ^ (szx + 4)
+    · rw [if_pos hund]; exact ⟨fun n s h => (by cases h), fun h => (by cases h)⟩
+    · rw [if_neg hund]
+      cases he : r.etag with
+      | some e =>
+        simp only
+        split
+        · exact ⟨fun n s h => (by cases h), fun h => (by cases h)⟩
+        · exact crcvStore_perblock _ _ _ _ _ _ _ _ _ _ _
+      | none =>
+        simp only
+        split
+        · exact ⟨fun n s h => (by cases h), fun h => (by cases h)⟩
+        · exact crcvStore_perblock _ _ _ _ _ _ _ _ _ _ _
+  have hfound : ∀ lg, (∀ n s, (crcvFound false cap junk lg r).2 ≠ CrcvOut.next n s) ∧
+      (crcvFound false cap junk lg r).2 ≠ CrcvOut.wait := by
+    intro lg
+    unfold crcvFound
+    cases hb : r.blk with
+    | none => exact ⟨fun n s h => (by cases h), fun h => (by cases h)⟩
+    | some b =>
+      obtain ⟨num, m, szx⟩ := b
+      simp only
+      split
+      · exact hblock lg num m szx
+      · exact ⟨fun n s h => (by cases h), fun h => (by cases h)⟩
+  unfold crcvStep
+  cases st with
+  | some lg => exact hfound lg
+  | none =>
+    simp only
+    cases hb : r.blk with
+    | none => exact ⟨fun n s h => (by cases h), fun h => (by cases h)⟩
+    | some b =>
+      obtain ⟨num, m, szx⟩ := b
+      simp only
+      split
+      · exact ⟨fun n s h => (by cases h), fun h => (by cases h)⟩
+      · exact hfound {}
+
+/-- NUM / SZX of a response's Block2 option -/
+def numOf (r : Resp) : Nat := match r.blk with | some (n, _, _) => n | none => 0
+def szxOfR (r : Resp) : Nat := match r.blk with | some (_, _, s) => s | none => 0
+
+/-- ghost: the block numbers handed to the handler since the lg_crcv was last (re-)initialised -/
+def seenAfter (st' : Option Crcv) (seen : List Nat) (num : Nat) (o : CrcvOut) : List Nat :=
+  match st' with
+  | none => []
+  | some s' =>
+    if s'.initial then []
+    else
+      match o with
+      | .block _ _ _ _ => num :: seen
+      | _ => seen
+
+/-- along a run in per-block mode: a block handed to the handler was not handed over before (since the last
+(re-)initialisation of the lg_crcv), and when the completing block is handed over every other block of the body has
+been: the (offset, length) pairs handed over tile the body, each exactly once -/
+def TilesOnce (cap : Nat) (junk : UInt8) (body : Bytes) : Option Crcv → List Nat → List Resp → Prop
+  | _, _, [] => True
+  | st, seen, r :: rs =>
+    (∀ off p t nx, (crcvStep false cap junk st r).2 = CrcvOut.block off p t nx → numOf r ∉ seen) ∧
+    (∀ off p t, (crcvStep false cap junk st r).2 = CrcvOut.last off p t →
+      numOf r ∉ seen ∧ ∀ k, k < nBlocks body.length (szxOfR r) → k = numOf r ∨ k ∈ seen) ∧
+    TilesOnce cap junk body (crcvStep false cap junk st r).1
+      (seenAfter (crcvStep false cap junk st r).1 seen (numOf r) (crcvStep false cap junk st r).2) rs
+
+theorem tilesOnce_run (cap : Nat) (junk : UInt8) (body : Bytes) (sz : Option Nat)
+    (hsz : ∀ t, sz = some t → t ≤ body.length) :
+    ∀ (rs : List Resp) (st : Option Crcv) (seen : List Nat),
+      (∀ s, st = some s → s.initial = false → CrcvInv false cap body sz s) →
+      (∀ k, k ∈ seen ↔ Covers (effRecv st) k) →
+      Admissible2 false cap junk body sz st rs → TilesOnce cap junk body st seen rs
+  | [], _, _, _, _, _ => trivial
+  | r :: rs, st, seen, hst, hG, hadm => by
+    obtain ⟨⟨num, szx, hg⟩, hrest⟩ := hadm
+    have hnum : numOf r = num := by unfold numOf; rw [hg.1]
+    have hszx : szxOfR r = szx := by unfold szxOfR; rw [hg.1]
+    obtain ⟨hpn, hpw⟩ := crcvStep_perblock cap junk st r
+    unfold TilesOnce
+    rw [hnum, hszx]
+    generalize hres : crcvStep false cap junk st r = res at hpn hpw hrest ⊢
+    obtain ⟨st', out⟩ := res
+    have hspec := crcvStep_spec false cap junk body sz st r num szx st' out hsz hst hg hres
+    dsimp only at hpn hpw hrest ⊢
+    refine ⟨?_, ?_, ?_⟩
+    · intro off p t nx hb hmem
+      exact (hspec.dBlock off p t nx hb).2.2.2.1 ((hG num).mp hmem)
+    · intro off p t hb
+      refine ⟨fun hmem => (hspec.dLast off p t hb).2.2.2.1 ((hG num).mp hmem), ?_⟩
+      intro k hk
+      rcases hspec.complete (by rw [hb]; rfl) k hk with h | h
+      · exact Or.inl h
+      · exact Or.inr ((hG k).mpr h)
+    · apply tilesOnce_run cap junk body sz hsz rs _ _ (fun s hs hi => hspec.inv s hs hi) _ hrest
+      intro k
+      unfold seenAfter effRecv
+      cases st' with
+      | none => simp [covers_nil]
+      | some s' =>
+        simp only
+        cases hi : s'.initial with
+        | true => simp [covers_nil]
+        | false =>
+          simp only [Bool.false_eq_true, if_false]
+          have hgrow := hspec.grow s' rfl hi k
+          rw [hgrow]
+          cases out with
+          | block off p t nx =>
+            simp only [List.mem_cons]
+            constructor
+            · intro h
+              rcases h with h | h
+              · exact Or.inr ⟨h, Or.inr (Or.inr ⟨off, p, t, nx, rfl⟩)⟩
+              · exact Or.inl ((hG k).mp h)
+            · intro h
+              rcases h with h | ⟨h, _⟩
+              · exact Or.inr ((hG k).mpr h)
+              · exact Or.inl h
+          | next n s => exact (hpn n s rfl).elim
+          | wait => exact (hpw rfl).elim
+          | _ =>
+            simp only
+            constructor
+            · intro h; exact Or.inl ((hG k).mp h)
+            · intro h
+              rcases h with h | ⟨_, h⟩
+              · exact (hG k).mpr h
+              · rcases h with h | h | ⟨_, _, _, _, h⟩ <;> cases h
+
 end Coap.Block
